@@ -373,8 +373,8 @@ func (a *EpochBitmapAllocator) MarshalJSON() ([]byte, error) {
 	a.mu.RLock()
 	defer a.mu.RUnlock()
 
-	ones, bits := a.mask.Size()
-	baseNetwork := fmt.Sprintf("%s/%d", a.baseIP.String(), ones+(bits-a.prefixLength))
+	ones, _ := a.mask.Size()
+	baseNetwork := fmt.Sprintf("%s/%d", a.baseIP.String(), ones)
 
 	state := EpochBitmapState{
 		BaseNetwork:    baseNetwork,
